@@ -159,6 +159,12 @@ func (mediaType *MediaType) Validate(ctx context.Context, opts ...ValidationOpti
 		}
 	}
 
+	for _, name := range componentNames(mediaType.Encoding) {
+		if err := mediaType.Encoding[name].Validate(ctx); err != nil {
+			return fmt.Errorf("encoding %q: %w", name, err)
+		}
+	}
+
 	return validateExtensions(ctx, mediaType.Extensions)
 }
 
